@@ -684,7 +684,7 @@ func (x *Exec) step(cfg *Config, f *Frame, in ssa.Instruction) (forks []*Config,
 		f.regs[i] = tup[i.Index]
 	case *ssa.MakeClosure:
 		fn := i.Fn.(*ssa.Function)
-		c := &CloV{Fn: fn}
+		c := &CloV{Fn: fn, Targs: f.targs}
 		for _, b := range i.Bindings {
 			c.Binds = append(c.Binds, x.get(f, b))
 		}
